@@ -34,6 +34,8 @@ inductive Action where
   | timeOfFloat
   | timeOfInt
   | timeParseKeep
+  | parseInt32Keep                 -- strconv.ParseInt(tv, 10, 32): syntax or range error: err, v left as it was
+  | fmtUint                        -- strconv.FormatUint(uint64(tv), 10), unsigned arms only
   | convStrict (t : NumT)           -- not in the source: the repaired form of `conv` (range / finiteness checked, else err + nil)
   deriving DecidableEq, Repr, Inhabited
 
@@ -168,6 +170,16 @@ def applyAction (ext : Ext F) (a : Action) (v : GoVal F) : GoVal F × Bool :=
      | .str s => (match parseInt64 s with
                   | some i => (.int t.kind (wrapInt t i), false)
                   | none => (v, true))
+     | _ => (v, false))
+  | .parseInt32Keep =>
+    (match v with
+     | .str s => (match parseInt64 s with
+                  | some i => if inRange32 i then (.int .i32 i, false) else (v, true)
+                  | none => (v, true))
+     | _ => (v, false))
+  | .fmtUint =>
+    (match v with
+     | .int _ n => (.str (toString n), false)
      | _ => (v, false))
   | .parseFloatKeep t =>
     (match v with
